@@ -8,6 +8,9 @@
     C04Respell  text-level re-spelling steps keep a spelling a spelling
     C04Alloc  per-`make` capacity bounds
     C04Witness  the `()`-member witnesses; a concrete (fmtF, parseF) pair for the non-vacuity examples
+    C04Float  the layout half of `%g` (Orb/WKTFloat.lean): non-empty, no delimiter byte, no adjacent letters,
+              for every digit list — `FloatText` reduced to the digit generator and `ParseFloat`
+    C04Empty  `<KEYWORD><blanks>EMPTY` with anything but one space is ErrNotWKT (outside the quantifier)
 -/
 import OrbProofs.C04Base
 import OrbProofs.C04Regex
@@ -17,3 +20,5 @@ import OrbProofs.C04Round
 import OrbProofs.C04Witness
 import OrbProofs.C04Alloc
 import OrbProofs.C04Respell
+import OrbProofs.C04Float
+import OrbProofs.C04Empty
